@@ -128,7 +128,7 @@ class AffineEval:
         return any(isinstance(n, ast.Name) and n.id == self.V for n in ast.walk(e))
 
     def free(self, e) -> Aff:
-        if any(isinstance(n, ast.Name) and n.id in self.env and not self.env[n.id].alpha.is_zero() for n in ast.walk(e)):
+        if any(isinstance(n, ast.Name) and n.id in self.env and (self.env[n.id] is None or not self.env[n.id].alpha.is_zero()) for n in ast.walk(e)):
             raise Lost(f"`{src(e)[:60]}` uses a value that depends on the old row in a way the affine domain does not model")
         return Aff(ZERO_R, Rat(p_atom(src(e))))
 
@@ -186,6 +186,8 @@ class AffineEval:
         if isinstance(e, ast.Subscript):
             if not self.mentions_iterate(e):
                 base = e.value
+                if isinstance(base, ast.Name) and base.id in self.env and self.env[base.id] is None:
+                    raise Lost(f"`{base.id}` could not be expressed as an affine form of the old row")
                 if isinstance(base, ast.Name) and base.id in self.env and not self.env[base.id].alpha.is_zero():
                     return self.env[base.id]
                 # canonical text for A[k, k]
